@@ -131,7 +131,7 @@ theorem act_next (cfg : HCfg) (r : ReqIn) (s : St) (a : Action) : Next r s (step
     split
     · exact .same
     · exact next_reply _ _ _ (.resource _ _ (Or.inr rfl) (by rename_i h; simpa using h))
-  | error e => cases e <;> exact next_reply _ _ _ (.error _ _ _ (Or.inr rfl))
+  | error e => cases e <;> first | exact next_reply _ _ _ (.error _ _ _ (Or.inr rfl)) | exact next_reply _ _ _ (.error _ _ _ (Or.inl rfl))
   | notFound => exact next_reply _ _ _ (.error _ _ _ (Or.inr rfl))
   | methodNotFound => exact next_reply _ _ _ (.error _ _ _ (Or.inr rfl))
   | invalidParams msg => exact next_reply _ _ _ (.error _ _ _ (Or.inr rfl))
@@ -355,7 +355,7 @@ theorem finish_cases (st : Step) :
     · right; simp only [finish, recoverArm, hr, stepSt_panic]
       refine ⟨by simp, ?_⟩
       cases p with
-      | err e => cases e <;> exact ⟨_, .error _ _ _ (Or.inr rfl), rfl⟩
+      | err e => cases e <;> first | exact ⟨_, .error _ _ _ (Or.inr rfl), rfl⟩ | exact ⟨_, .error _ _ _ (Or.inl rfl), rfl⟩
       | lib => exact ⟨_, .error _ _ _ (Or.inr rfl), rfl⟩
       | str m => exact ⟨_, .error _ _ _ (Or.inr rfl), rfl⟩
       | other m => exact ⟨_, .error _ _ _ (Or.inr rfl), rfl⟩
